@@ -573,8 +573,10 @@ func (v SolutionVehicle) ModelVehicle() ModelVehicle {
 // are not removed. Fixed stops are not removed.
 func (v SolutionVehicle) Unplan() (bool, error) {
 	// TODO notify observers
+	// A plan unit is fixed as soon as one of its stops is, none of the stops
+	// of such a unit can be un-planned.
 	solutionStops := common.Filter(v.SolutionStops(), func(solutionStop SolutionStop) bool {
-		return !solutionStop.IsFixed()
+		return !solutionStop.IsFixed() && !solutionStop.planStopsUnit().IsFixed()
 	})
 	if len(solutionStops) == 0 {
 		return false, nil
